@@ -294,6 +294,67 @@ fn header_variants_total() -> u64 {
     vh::util::count_strings_upto(8, 5) + 12
 }
 
+/// Cross-over of two valid buffers: the head of A up to a structural offset followed by the tail
+/// of B from a structural offset (a structurally plausible but inconsistent buffer).
+struct Cross {
+    a: Vec<u8>,
+    b: Vec<u8>,
+    sta: Vec<usize>,
+    stb: Vec<usize>,
+}
+
+/// Where the faults of one shard come from. Buffer ids: 0..SOURCES.len() = a valid buffer,
+/// usize::MAX = the buffer-independent header variants, 1000 + 16*a + b = cross-over of a and b.
+enum Src {
+    Buf(Faults),
+    Hdr,
+    Cross(Cross),
+}
+
+impl Src {
+    fn of(buffer: usize, pairs: bool) -> Src {
+        if buffer == usize::MAX {
+            Src::Hdr
+        } else if buffer >= 1000 {
+            let (a, b) = ((buffer - 1000) / 16, (buffer - 1000) % 16);
+            let (ba, bb) = (valid_buffer(a), valid_buffer(b));
+            let (sta, _) = structural_offsets(&ba);
+            let (stb, _) = structural_offsets(&bb);
+            Src::Cross(Cross { a: ba, b: bb, sta, stb })
+        } else {
+            Src::Buf(Faults::new(valid_buffer(buffer), pairs))
+        }
+    }
+    fn total(&self) -> u64 {
+        match self {
+            Src::Buf(f) => f.total(),
+            Src::Hdr => header_variants_total(),
+            Src::Cross(c) => (c.sta.len() * c.stb.len()) as u64,
+        }
+    }
+    fn make(&self, i: u64) -> (String, Vec<u8>) {
+        match self {
+            Src::Buf(f) => f.make(i),
+            Src::Hdr => header_variant(i),
+            Src::Cross(c) => {
+                let (x, y) = (c.sta[(i as usize) / c.stb.len()], c.stb[(i as usize) % c.stb.len()]);
+                let mut v = c.a[..x].to_vec();
+                v.extend_from_slice(&c.b[y..]);
+                (format!("crossover[head ..{} + tail {}..]", x, y), v)
+            }
+        }
+    }
+    fn name(buffer: usize) -> String {
+        if buffer == usize::MAX {
+            "header-variants".into()
+        } else if buffer >= 1000 {
+            format!("{} x {}", SOURCES[(buffer - 1000) / 16].name, SOURCES[(buffer - 1000) % 16].name)
+        } else {
+            SOURCES[buffer].name.to_string()
+        }
+    }
+}
+
 // ---------------------------------------------------------------------------------------------
 // executing one fault (in the child)
 // ---------------------------------------------------------------------------------------------
@@ -396,16 +457,13 @@ fn child(buffer: usize, from: u64, to: u64) {
     vh::util::install_quiet_panic_hook();
     let out = std::io::stdout();
     let mut out = out.lock();
-    let faults = if buffer == usize::MAX { None } else { Some(Faults::new(valid_buffer(buffer), true)) };
+    let faults = Src::of(buffer, true);
     let mut e = preloaded();
     let (pn, pc) = battery_urls(&[]);
     let pre_answers = run_battery(&e, &pn, &pc);
     let pre_bytes = e.serialize_raw().unwrap();
     for i in from..to {
-        let (_, faulty) = match &faults {
-            Some(f) => f.make(i),
-            None => header_variant(i),
-        };
+        let (_, faulty) = faults.make(i);
         writeln!(out, "S {}", i).ok();
         out.flush().ok();
         let (line, rebuild) = execute(&mut e, &pre_answers, &pre_bytes, &faulty);
@@ -534,7 +592,7 @@ fn sig_of(o: &str) -> String {
     format!("c10.{}", o.split('>').next().unwrap_or(o))
 }
 
-fn record(buffer: usize, f: Option<&Faults>, res: ShardResult, l: &mut Local) {
+fn record(buffer: usize, f: &Src, res: ShardResult, l: &mut Local) {
     for (i, o) in res.outcomes {
         l.evaluations += 1;
         l.transitions += 1;
@@ -546,11 +604,8 @@ fn record(buffer: usize, f: Option<&Faults>, res: ShardResult, l: &mut Local) {
             l.nontrivial += 1;
         }
         if is_bad(&o) {
-            let (desc, bytes) = match f {
-                Some(f) => f.make(i),
-                None => header_variant(i),
-            };
-            let name = if buffer == usize::MAX { "header-variants" } else { SOURCES[buffer].name };
+            let (desc, bytes) = f.make(i);
+            let name = Src::name(buffer);
             l.mismatch(Mismatch {
                 sig: sig_of(&o),
                 what: format!("buffer '{}' fault {}: {}", name, desc, o),
@@ -580,6 +635,28 @@ fn check(ctx: &Ctx) -> i32 {
             s += step;
         }
     }
+    // cross-overs between valid buffers (quick: one ordered pair; thorough: all ordered pairs of
+    // four buffers)
+    let cross_pairs: Vec<(usize, usize)> = match ctx.tier {
+        Tier::Quick => vec![(1, 2)],
+        Tier::Thorough => {
+            let bs = [0usize, 1, 2, 4];
+            bs.iter().flat_map(|&a| bs.iter().filter(move |&&b| b != a).map(move |&b| (a, b))).collect()
+        }
+    };
+    let mut cross_total = 0u64;
+    for (a, b) in &cross_pairs {
+        let id = 1000 + 16 * a + b;
+        let total = Src::of(id, false).total();
+        cross_total += total;
+        let mut s = 0;
+        while s < total {
+            shards.push((id, s, (s + 1500).min(total)));
+            s += 1500;
+        }
+    }
+    ctx.bound("crossover_pairs", cross_pairs.len());
+    ctx.bound("crossover_faults", cross_total);
     let hv = header_variants_total();
     let mut s = 0;
     while s < hv {
@@ -595,17 +672,17 @@ fn check(ctx: &Ctx) -> i32 {
     let pair_ref = &pair_buffers;
     ctx.par_range("fault shards", shards.len() as u64, 1, |k, l| {
         let (b, from, to) = shards_ref[k as usize];
-        let f = if b == usize::MAX { None } else { Some(Faults::new(valid_buffer(b), pair_ref.contains(&b))) };
+        let f = Src::of(b, pair_ref.contains(&b));
         if l.samples.len() < 3 && (k + ctx.seed) % 7 == 0 {
-            let (d, bytes) = match &f { Some(f) => f.make(from), None => header_variant(from) };
-            l.samples.push(json!({"buffer": if b == usize::MAX { "header-variants" } else { SOURCES[b].name }, "fault": d, "first_bytes_hex": bytes.iter().take(24).map(|x| format!("{:02x}", x)).collect::<String>()}));
+            let (d, bytes) = f.make(from);
+            l.samples.push(json!({"buffer": Src::name(b), "fault": d, "first_bytes_hex": bytes.iter().take(24).map(|x| format!("{:02x}", x)).collect::<String>()}));
         }
         let res = run_shard(b, from, to);
-        record(b, f.as_ref(), res, l);
+        record(b, &f, res, l);
     });
     ctx.finish(
         "fault_enumeration",
-        "for each valid buffer (small engines of every rule-shape family, debug on/off, tags, cosmetic rules): every prefix, every single-bit flip, every structural byte (msgpack markers and length bytes found by a walker) replaced by each of 19 marker values, a 4 GiB length header spliced at every structural position, every version byte, every string value replaced by each of 12 short texts (re-encoded with a correct length); thorough adds all pairs of structural substitutions and all pairs of bit flips on three small buffers; plus all byte strings of length <= 5 over 8 header bytes and gzip-header variants. Each fault is loaded into a pre-loaded real engine inside a child process under a 64 MiB allocation ceiling and a 2 s ceiling; post-conditions: no panic/abort, on error the engine answers a fixed battery and serialises exactly as before, on success a battery built from the strings of the buffer runs and the engine re-serialises; distinct non-trivial = faults that loaded successfully",
+        "for each valid buffer (small engines of every rule-shape family, debug on/off, tags, cosmetic rules): every prefix, every single-bit flip, every structural byte (msgpack markers and length bytes found by a walker) replaced by each of 19 marker values, a 4 GiB length header spliced at every structural position, every version byte, every string value replaced by each of 12 short texts (re-encoded with a correct length); thorough adds all pairs of structural substitutions and all pairs of bit flips on three small buffers; plus cross-overs (head of one valid buffer up to a structural offset + tail of another from a structural offset), all byte strings of length <= 5 over 8 header bytes and gzip-header variants. Each fault is loaded into a pre-loaded real engine inside a child process under a 64 MiB allocation ceiling and a 2 s ceiling; post-conditions: no panic/abort, on error the engine answers a fixed battery and serialises exactly as before, on success a battery built from the strings of the buffer runs and the engine re-serialises; distinct non-trivial = faults that loaded successfully",
         &["allocations <= 2 KiB are not counted towards the ceiling", "the battery after a successful load is a fixed URL set plus URLs built from the ASCII runs of the faulty buffer"],
     )
 }
@@ -614,14 +691,14 @@ fn replay(case: &Value, l: &mut Local) {
     let b = case["buffer"].as_i64().unwrap_or(0);
     let i = case["fault_index"].as_u64().unwrap_or(0);
     let buffer = if b < 0 { usize::MAX } else { b as usize };
-    let f = if buffer == usize::MAX { None } else { Some(Faults::new(valid_buffer(buffer), true)) };
+    let f = Src::of(buffer, true);
     // the description identifies a fault across changes of the fault menu; the index is a fallback
-    let i = match (&f, case["fault"].as_str()) {
-        (Some(f), Some(d)) => (0..f.total()).find(|&k| f.make(k).0 == d).unwrap_or(i),
+    let i = match (buffer != usize::MAX, case["fault"].as_str()) {
+        (true, Some(d)) => (0..f.total()).find(|&k| f.make(k).0 == d).unwrap_or(i),
         _ => i,
     };
     let res = run_shard(buffer, i, i + 1);
-    record(buffer, f.as_ref(), res, l);
+    record(buffer, &f, res, l);
 }
 
 fn main() {
